@@ -347,7 +347,7 @@ func (q *DateRangeQuery) Searcher(i search.Reader, options search.SearcherOption
 	}
 
 	if q.scorer == nil {
-		q.scorer = similarity.ConstantScorer(1)
+		q.scorer = similarity.ConstantScorer(q.boost.Value())
 	}
 
 	return searcher.NewNumericRangeSearcher(i, min, max, q.inclusiveStart, q.inclusiveEnd, field,
@@ -531,7 +531,7 @@ func (q *GeoBoundingBoxQuery) Searcher(i search.Reader, options search.SearcherO
 	}
 
 	if q.scorer == nil {
-		q.scorer = similarity.ConstantScorer(1)
+		q.scorer = similarity.ConstantScorer(q.boost.Value())
 	}
 
 	if q.bottomRight[0] < q.topLeft[0] {
@@ -707,7 +707,7 @@ func (q *MatchAllQuery) Boost() float64 {
 }
 
 func (q *MatchAllQuery) Searcher(i search.Reader, options search.SearcherOptions) (search.Searcher, error) {
-	return searcher.NewMatchAllSearcher(i, q.boost.Value(), similarity.ConstantScorer(1), options)
+	return searcher.NewMatchAllSearcher(i, q.boost.Value(), similarity.ConstantScorer(q.boost.Value()), options)
 }
 
 type MatchNoneQuery struct {
